@@ -5,6 +5,7 @@ import (
 	"encoding/hex"
 	"fmt"
 	"sort"
+	"strings"
 
 	"github.com/high-moctane/mocrelay"
 	"pgregory.net/rapid"
@@ -81,7 +82,10 @@ var (
 	ReplaceableKinds = []int64{0, 3, 10000, 19999}
 	EphemeralKinds   = []int64{20000, 29999}
 	AddressableKinds = []int64{30000, 39999}
-	DValues          = []string{"", "a", "b", "a:b", "é"}
+	DValues          = []string{"", "a", "b", "a:b", "é", LongD1, LongD2}
+	// two long d values that agree in their first 190 bytes
+	LongD1 = strings.Repeat("d", 190) + ":one"
+	LongD2 = strings.Repeat("d", 190) + ":two"
 )
 
 // AnyKind covers 0..65535 with the class boundaries boosted.
